@@ -47,6 +47,7 @@ func TestClient(t *testing.T) {
 	runConcPart(t, res, rng.Fork(2))
 	runRetryPart(t, res)
 	runUnlockFailurePart(t, res)
+	runRenewRetryPart(t, res)
 }
 
 // (d) the Unlock RPC fails at transport level (before or after the server applied it) until the retry
@@ -101,6 +102,72 @@ func runUnlockFailurePart(t *testing.T, res *common.Result) {
 						What: fmt.Sprintf("MaxRetries=%d, Unlock RPC failed with Unavailable (server applied it: %v): panics %v; required: nothing panics", M, applied, ps), Replay: rp})
 				}
 			})
+		}
+	}
+}
+
+// runRenewRetryPart: Unlock (and Close) called while the renew goroutine is INSIDE a Renew call that lasts -
+// its first attempt was answered Unavailable and it is waiting out the retry delay. "Once Unlock has returned
+// no further renew for that hold is sent and nothing panics, for every timing of Unlock against the renew loop".
+func runRenewRetryPart(t *testing.T, res *common.Result) {
+	client.RetryDelaySeconds = 3
+	for M := 1; M <= 3; M++ {
+		for _, useClose := range []bool{false, true} {
+			for _, into := range []time.Duration{100 * time.Millisecond, 500 * time.Millisecond, 2900 * time.Millisecond, 3500 * time.Millisecond} {
+				M, useClose, into := M, useClose, into
+				synctest.Test(t, func(t *testing.T) {
+					verifrt.Reset(false)
+					w, err := newWorld(M)
+					if err != nil {
+						t.Fatal(err)
+					}
+					defer w.close()
+					lk, lerr := w.c.Lock("x", &client.LockOptions{LockTimeoutSeconds: 40})
+					if lerr != nil || lk == nil || !lk.Locked {
+						t.Fatalf("setup: Lock(x) -> %v %v", lk, lerr)
+					}
+					w.tr.mu.Lock()
+					w.tr.failRenew = M // every attempt but the last one of the first auto-renew fails
+					w.tr.mu.Unlock()
+					time.Sleep(10*time.Second + into) // the renew goroutine is `into` into its Renew call
+					synctest.Wait()
+					var ok bool
+					var uerr error
+					pan := guard(func() {
+						if useClose {
+							uerr = w.c.Close()
+							ok = uerr == nil
+						} else {
+							ok, uerr = w.c.Unlock("x", lk.Key)
+						}
+					})
+					at, n0 := w.now(), w.tr.len()
+					time.Sleep(3 * 40 * time.Second)
+					synctest.Wait()
+					res.Count("part:e-renew-in-flight-case")
+					res.Eval(fmt.Sprintf("e|M=%d close=%v into=%v", M, useClose, into), true)
+					late := 0
+					for _, e := range w.tr.snapshot()[n0:] {
+						if e.Method == "Renew" && e.Name == "x" {
+							late++
+						}
+					}
+					call := map[bool]string{false: "Unlock", true: "Close"}[useClose]
+					rp := map[string]any{"part": "e-renew-in-flight", "max_retries": M, "call": call, "called_at": (10*time.Second + into).String(), "returned": fmt.Sprintf("ok=%v err=%v", ok, uerr), "returned_at": at.String(), "rpcs": w.tr.snapshot()}
+					if late > 0 {
+						res.Find(common.Finding{Kind: "violation", Property: "C19", Signature: "client:renew-after-unlock:renew-in-flight",
+							What: fmt.Sprintf("MaxRetries=%d: %s was called %v into an auto-renew whose first %d attempt(s) were answered Unavailable (retry delay 3 s); it returned (%v, %v) at %v and %d Renew RPC(s) for the hold were sent afterwards; required: none once it has returned", M, call, into, M, ok, uerr, at, late), Replay: rp})
+					}
+					ps := verifrt.Panics()
+					if pan != "" {
+						ps = append(ps, "caller: "+pan)
+					}
+					if len(ps) > 0 {
+						res.Find(common.Finding{Kind: "violation", Property: "C19", Signature: "client:panic:renew-in-flight",
+							What: fmt.Sprintf("MaxRetries=%d: %s called %v into an auto-renew that is waiting out a retry delay: panics %v; required: nothing panics", M, call, into, ps), Replay: rp})
+					}
+				})
+			}
 		}
 	}
 }
